@@ -1,7 +1,8 @@
 /-
   Driver engine for C18 (prefix `metric.`): recomputes every reported metric from the observed
   input rasters with the model (MISMATCH) and evaluates the definitions of
-  Model/MetricSpec.lean on the implementation's observed output (PROPFAIL C18 ...).
+  Model/MetricSpec.lean on the implementation's observed output (PROPFAIL C18 ..., or
+  KNOWN C18 F30 ... inside the region of the open finding: an infected cell with a negative area id).
   Line formats: see harness/h_metric.cpp.
 -/
 import PopsModel.Driver.Util
@@ -246,6 +247,13 @@ def showInfo (x : EscapeInfo) : String :=
 def dirOfName? (s : String) : Option Dir :=
   [Dir.N, Dir.S, Dir.E, Dir.W, Dir.none].find? (·.name == s)
 
+/-- `metric.q.act`. Domain of the property predicates: the area raster given to `action` is the one
+    given to the constructor (`same`). Area ids are NOT restricted: an infected listed cell whose id
+    is not positive lies outside every quarantine area (`specEscapedFull`), so escape must be
+    reported. Region of the open finding F30 (`negativeIdAtInfected`): some infected listed cell has
+    a NEGATIVE id - there a failing predicate is printed as `KNOWN C18 F30 ...` (never hiding a
+    disagreement with the model); everywhere else, including rasters with negative ids at
+    non-infected cells only, a failing predicate is a `PROPFAIL`. -/
 def handleQAct (st : State) (inp obs : List String) : State × String :=
   match inp with
   | run :: step :: flag :: rest =>
@@ -256,22 +264,44 @@ def handleQAct (st : State) (inp obs : List String) : State × String :=
         else raster? st (rest.drop ncell)
       match areas2?, st.q[run]? with
       | some areas2, some q =>
-        match q.action st.cells inf areas2 step, obs with
-        | .error e, [o] => (st, if o = errTok e then "ok" else s!"MISMATCH metric.q.act model={errTok e}")
-        | .error e, _ => (st, s!"MISMATCH metric.q.act model={errTok e}")
-        | .ok q', ["ok", esc, dist, dname, dcode] =>
+        let inDomain := flag = "same"
+        let region := inDomain && negativeIdAtInfected inf st.qAreas st.cells
+        let modelR := q.action st.cells inf areas2 step
+        let modelS := match modelR with
+          | .error e => errTok e
+          | .ok q' => showInfo (q'.infos.getD step default)
+        match obs with
+        | [o] =>
+          -- the call threw
+          if !o.startsWith "err:" then (st, s!"MISMATCH metric.q.act model={modelS}")
+          else if inDomain && decide (step < q.infos.length) then
+            -- a valid step on the constructor's raster: the property demands a report
+            if region then
+              (st, if o = modelS then s!"KNOWN C18 F30 negative area id at an infected cell: escape must be reported, action threw {o}"
+                   else s!"MISMATCH metric.q.act model={modelS}")
+            else (st, s!"PROPFAIL C18 escape-iff action threw {o} expected={specEscapedFull inf st.qAreas st.cells}")
+          else (st, if o = modelS then "ok" else s!"MISMATCH metric.q.act model={modelS}")
+        | ["ok", esc, dist, dname, dcode] =>
+          match modelR with
+          | .error _ => (st, s!"MISMATCH metric.q.act model={modelS}")
+          | .ok q' =>
           let st' := { st with q := st.q.set run q',
                                qObs := ((run, step), (dist, dcode)) :: st.qObs.filter (·.1 != (run, step)) }
           let mi := (q'.infos.getD step default)
           match dist? dist, dirOfName? dname with
           | some od, some odir =>
             let oesc := esc == "1"
-            let inDomain := flag = "same" && nonneg st.qAreas
-            if inDomain && oesc != specEscaped inf st.qAreas st.cells then
-              (st', s!"PROPFAIL C18 escape-iff expected={specEscaped inf st.qAreas st.cells}")
+            let agrees := toString odir.code = dcode && decide ((⟨oesc, od, odir⟩ : EscapeInfo) = mi)
+            let want := specEscapedFull inf st.qAreas st.cells
+            if inDomain && oesc != want then
+              if region then
+                (st', if agrees then s!"KNOWN C18 F30 negative area id at an infected cell: escape must be reported, reported escaped={esc} distance={showDist od} direction={odir.name}"
+                      else s!"MISMATCH metric.q.act model={showInfo mi}")
+              else (st', s!"PROPFAIL C18 escape-iff expected={want}")
             else
               -- every resolution (integer or not): the direction must be that of a pair (infected cell,
-              -- enabled side) whose EXACT distance is minimal, the distance its `lround`
+              -- enabled side) whose EXACT distance is minimal, the distance its `lround`. Here no
+              -- infected cell lies outside every area, so each has a positive id and its own box.
               let nearestFail : Bool :=
                 inDomain && !oesc && !(presentCells inf st.cells).isEmpty &&
                 decide (0 ≤ st.ns) && decide (0 ≤ st.ew) &&
@@ -283,7 +313,7 @@ def handleQAct (st : State) (inp obs : List String) : State × String :=
               else if (⟨oesc, od, odir⟩ : EscapeInfo) ≠ mi then (st', s!"MISMATCH metric.q.act model={showInfo mi}")
               else (st', "ok")
           | _, _ => (st', "BADLINE")
-        | .ok q', _ => (st, s!"MISMATCH metric.q.act model={showInfo (q'.infos.getD step default)}")
+        | _ => (st, s!"MISMATCH metric.q.act model={modelS}")
       | _, _ => (st, "BADLINE")
     | _, _, _ => (st, "BADLINE")
   | _ => (st, "BADLINE")
